@@ -8,6 +8,7 @@ import (
 	"io"
 	"os"
 	"path"
+	"runtime"
 	"sort"
 	"strings"
 	"syscall"
@@ -382,7 +383,15 @@ type Built struct {
 	Cfg       BuildCfg
 }
 
+// PinProcs makes builds done outside the simulation independent of the machine: worker pools and
+// the zstd encoder size themselves by GOMAXPROCS, which changes the produced bytes.
+func PinProcs() func() {
+	old := runtime.GOMAXPROCS(1)
+	return func() { runtime.GOMAXPROCS(old) }
+}
+
 func BuildBlob(tarBytes []byte, c BuildCfg) (*Built, error) {
+	defer PinProcs()()
 	opts := []estargz.Option{estargz.WithChunkSize(c.ChunkSize)}
 	if c.MinChunkSize > 0 {
 		opts = append(opts, estargz.WithMinChunkSize(c.MinChunkSize))
